@@ -81,7 +81,7 @@ theorem C16_index_consistent_partial (ops : List ROp) (hg : Guarded Ring.empty o
   exact RInv_lookup r (RInv_run _ RInv_empty ops hg) h hh
 
 example : Guarded Ring.empty [.addIfMissing ⟨1, 1, 7, 7⟩, .addIfMissing ⟨2, 2, 8, 8⟩, .remove 1, .addOrUpdate ⟨3, 3, 7, 7⟩] := by
-  decide
+  refine ⟨?_, ?_, ?_, trivial⟩ <;> decide
 
 /-- Known defect D3 (kernel-checked): add(id1@X), add(id2@X), removeHost(id1) — the live node id2
 is still in the ring but is no longer found by its address. -/
